@@ -15,7 +15,7 @@ REPO = "/repo"
 TARGETS = [
     ("include/photospline/bspline.h", ["C02", "C01"], None),
     ("include/photospline/detail/bspline_eval.h", ["C04", "C02", "C01", "C03"], None),
-    ("include/photospline/detail/bspline_multi.h", ["C03", "C02"], None),
+    ("include/photospline/detail/bspline_multi.h", ["C02", "C03"], None),
     ("src/core/bspline.cpp", ["C02", "C01", "C09"], None),
     ("include/photospline/detail/fitsio.h", ["C06", "C07", "C08", "C19"], None),
     ("include/photospline/detail/aux.h", ["C16", "C06"], None),
